@@ -325,6 +325,7 @@ def run_history(b, r, n_steps, out, hist_id):
             if any(c16.inverse_pair(I16, u['caps']) for _, u in prev['users']) or \
                     any(c16.inverse_pair(I16, c['caps']) for _, c in prev['chans']):
                 continue
+            ircdb.log.clear()
             ircdb.users.flush(); ircdb.users.reload()
             ircdb.channels.flush(); ircdb.channels.reload()
             ircdb.ignores.flush(); ircdb.ignores.reload()
@@ -347,6 +348,7 @@ def run_history(b, r, n_steps, out, hist_id):
             if any(c16.inverse_pair(I16, u['caps']) for _, u in prev['users']) or \
                     any(c16.inverse_pair(I16, c['caps']) for _, c in prev['chans']):
                 continue
+            ircdb.log.clear()
             ircdb.users.reload(); ircdb.ignores.reload(); ircdb.channels.reload()
             ok = True
             guard = None
@@ -420,6 +422,12 @@ def run_history(b, r, n_steps, out, hist_id):
                                     % (i, x, args[0], actor))
         changed = enc_state(cur) != enc_state(prev)
         tags = [k] + (['changed'] if changed else []) + (['ok'] if ok else [])
+        # the run condition of theorem history_safe_all, observed on the implementation (reported, not required)
+        if k in ('capAdd', 'capRemove', 'chanCapAdd', 'chanCapRemove') and not ok and \
+                c16.enc_users(c16.canon_users(cur['users'])) != c16.enc_users(c16.canon_users(prev['users'])):
+            tags.append('goodrun-unacknowledged-change')
+        if k in ('flushReload', 'reload') and getattr(ircdb.log, 'exc', None):
+            tags.append('goodrun-load-failed')
         c = Case({'history': hist_id, 'step': si, 'trail': list(trail)}, impl=('1' if ok else '0') + '\t' + enc_state(cur),
                  oracle_ok=(not msgs), oracle_msg='; '.join(msgs), kind='history', tags=tuple(tags) if (changed or k in ('flushReload', 'reload', 'flushAll', 'upkeep')) else ())
         steps.append(c)
